@@ -90,6 +90,13 @@ def rfcTargetInput (B R : Parts) : Option Str :=
   else if R.path.head? = some cSlash then some R.path
   else some (merge B.authority.isSome B.path R.path)
 
+/-- Chain-only class `chain-sticky-empty-fragment`: the private forceFragment flag is or-ed along a chain
+    of re-bases and never reset, so once the base or an earlier reference of the chain ended with `#`,
+    every later target whose reference has no fragment gets a `#`. `earlier` = the original base and the
+    references of the previous steps. -/
+def chainStickyEmptyFragment (earlier : List Str) (ref : Str) : Bool :=
+  earlier.any (fun s => s.getLast? == some cHash) && (split ref).fragment.isNone
+
 /-- names of the classes whose predicate holds on `(a, b)`; `isParse`: only `a` is given -/
 def classes (isParse : Bool) (a b : Str) : List String :=
   let pa := split a
